@@ -53,6 +53,10 @@ MUTANTS = [
  ("S02", [], TY, 'pub const CONNECTER_PRODUCT: &str = " times ";', 'pub const CONNECTER_PRODUCT: &str = " times.circle ";', "Typst markup re-skinned, still distinct"),
  ("S03", [], FI, 'format_items: " ", // 格式化时，条目间需要空格（英文如此）', 'format_items: "  ", // 格式化时，条目间需要空格（英文如此）', "ASCII formatter puts two spaces between items"),
  ("S04", [], P, '            return self.err("预算值缺少右括弧");', '            return self.err("budget is not closed");', "a different error message"),
+ ("S06", [], F, "            out.push_str(&f.to_string());\n        }\n        out.push_str(bracket_right);", "            out.push_str(&if f.fract() == 0.0 { format!(\"{f:.1}\") } else { f.to_string() });\n        }\n        out.push_str(bracket_right);", "enum formatter spells numbers with a decimal point (1 -> 1.0): values unchanged (the repository's formatter test pins the old spelling, so this edit is for the checks only)"),
+ ("S07", [], FI, 'format_terms: "",  // 格式化时，词项间无需分隔（避免太过松散）', 'format_terms: " ",  // 格式化时，词项间无需分隔（避免太过松散）', "Han formatter puts a space between terms (parsers skip spaces)"),
+ ("S08", [], T, "    fn hash<H: std::hash::Hasher>(&self, state: &mut H) {\n        match self {\n            // 原子词项 //", "    fn hash<H: std::hash::Hasher>(&self, state: &mut H) {\n        std::mem::discriminant(self).hash(state);\n        match self {\n            // 原子词项 //", "Hash also feeds the constructor discriminant"),
+ ("S09", [], F, "        template_compound_set(\n            out,\n            bracket_left,\n            components.iter().map(|term| self.format_term(term)),", "        let mut sorted: Vec<String> = components.iter().map(|term| self.format_term(term)).collect();\n        sorted.sort();\n        template_compound_set(\n            out,\n            bracket_left,\n            sorted.into_iter(),", "enum formatter prints the elements of {..} / [..] sets in sorted order (canonical output)"),
  ("S05", [], T, "            // 一元\n            Negation(..) => Unary,", "            Negation(..) => Unary, // 一元", "comment moved (no semantic change)"),
 ]
 
